@@ -166,6 +166,9 @@ ExitViol(e) ==
        ELSE IF \E u \in rowsAtCrash : st[u] = "none" THEN 52         \* C03: a discovered URL was lost
        ELSE IF \E u \in URLs : req[1][u] + req[2][u] = 0 /\ expected[u] > 0 THEN 53   \* C03: never requested
        ELSE IF \E u \in URLs : st[u] \notin {"none", "done", "skipped"} THEN 54
+       \* C03: the resumed run itself requests a URL more often than a crawl does (a database damaged by the kill,
+       \* e.g. one that stores the same URL twice); sites whose answers never fail only
+       ELSE IF \E u \in URLs : S.kind[u] \in {"page", "redirect"} /\ req[2][u] > expected[u] THEN 55
        ELSE 0
   ELSE IF \E u \in URLs : st[u] \in {"todo", "in_progress"} THEN 42   \* C18: crawl ended with pending work
   ELSE IF \E u \in URLs : st[u] = "error" /\ O.tries > 0 /\ try[u] < O.tries THEN 43
